@@ -94,6 +94,10 @@ func (g *gen) msg() *MsgSpec {
 			m.Size = 1<<20 + g.pick(3<<20)
 		case x < g.k.pBig:
 			m.Size = 60000 + g.pick(10000)
+		case x < g.k.pBig+0.05:
+			// medium: beyond net/http's 4 KiB write buffer, around its 32 KiB
+			// body-copy chunk, up to a few hundred KiB
+			m.Size = []int{4000, 9000, 30000, 33000, 70000, 140000, 270000}[g.pick(7)] + g.pick(3000)
 		case x < 0.3:
 			m.Size = g.pick(8)
 		default:
